@@ -31,7 +31,7 @@ def opts(tier):
     o.many_segments_p = 0.005
     o.short_last_p = 0.04
     o.equal_shapes_p = 0.15
-    return o
+    return gen.deepen(o, tier)
 
 
 def generate(rng, tier):
